@@ -519,14 +519,18 @@ func expandRequestData(testCase *conformancev1.TestCase) error {
 				// it's the right size
 				break
 			}
-			if adjustCount >= 2 {
-				// Oof. If we have to adjust it more than 2x, then we're at a weird boundary
-				// condition that can't easily be expanded to the exact size. This is highly
+			if adjustCount >= 3 {
+				// Oof. If we have to adjust it more than 3x, then we're at a weird boundary
+				// condition that can't be expanded to the exact size. This is highly
 				// unlikely, but can happen if adding the one byte of padding causes the data
 				// length to suddenly require one more byte to encode as a varint. In that
 				// case, adding one byte of data adds two bytes to the size. So if we were
 				// only one byte away from the desired size, the padded size pushes us one
-				// byte over.
+				// byte over. (Three adjustments are needed to settle just below such a
+				// boundary: the first overshoots by the longer length prefix, the second
+				// falls back below the boundary where the prefix is shorter again, and the
+				// third makes up for that. A size that still isn't matched then can't be
+				// reached with any amount of padding.)
 				return fmt.Errorf("request message #%d: can't pad to exactly %d bytes; closest we can get is %d",
 					i+1, totalSize, size)
 			}
@@ -537,7 +541,9 @@ func expandRequestData(testCase *conformancev1.TestCase) error {
 				padding := make([]byte, delta)
 				bytesVal = append(bytesVal, padding...)
 			} else {
-				bytesVal = bytesVal[:len(bytesVal)+int(delta)]
+				// We can't remove more padding than there is. (If the message is too
+				// large even without padding, we end up reporting that below.)
+				bytesVal = bytesVal[:max(len(bytesVal)+int(delta), 0)]
 			}
 			reflectReq.Set(field, protoreflect.ValueOfBytes(bytesVal))
 			adjustCount++
